@@ -442,8 +442,11 @@ def finish(pid, tier, seed, level, merged, t0, *, rule, explanation, bounds, ass
         'assumptions': list(assumptions), 'wall_s': round(time.time() - t0, 2),
         'violations': sum(1 for l in lines if l.startswith('VIOLATION')),
     }
-    os.makedirs(os.path.join(VERIF, 'evidence'), exist_ok=True)
-    with open(os.path.join(VERIF, 'evidence', f'{pid}.json'), 'w') as f:
+    # evidence/<id>.json describes runs against /repo itself; a run pointed at another tree (FGGS_REPO, used by the seeded-change
+    # driver) leaves it alone and writes under scratch/
+    evdir = os.path.join(VERIF, 'evidence') if os.path.realpath(REPO) == '/repo' else os.path.join(VERIF, 'scratch', 'evidence_other_tree')
+    os.makedirs(evdir, exist_ok=True)
+    with open(os.path.join(evdir, f'{pid}.json'), 'w') as f:
         json.dump(ev, f, indent=1, default=str)
     for l in lines:
         print(l)
